@@ -6,7 +6,7 @@ from __future__ import annotations
 import json
 import random
 
-from .aggsym_common import merge, model_check, sample_scenarios
+from .aggsym_common import merge, model_check, presented, sample_scenarios
 from .aggsym_eval import run_job
 from .core import Ctx, MachineryError
 from .par import pmap
@@ -55,7 +55,7 @@ def run_sc(ctx: Ctx, pid: str) -> dict:
     ctx.extra["scenarios_exported"] = len(scn_all)
     rng = random.Random(ctx.seed)
     # always replayed: the identity of every instance and PadZero applied directly to it (every count and layout)
-    picked = sample_scenarios(scn, budget, rng, keep=lambda s: s["steps"] == 0 or (s["steps"] == 1 and s["pad"]["cnt"] > 0))
+    picked = sample_scenarios(scn, budget, rng, keep=lambda s: s["steps"] == 0 or (s["steps"] == 1 and presented(s)))
     ctx.extra["scenarios_replayed"] = len(picked)
     jobs = make_jobs(pid, picked, scales, ctx.seed, chunk, LADDER_SCALES[ctx.tier] if pid == "C09" else None)
     import torchjd.aggregation  # noqa: F401  (imported once, before the workers fork)
@@ -80,7 +80,9 @@ def run_replay(ctx: Ctx, pid: str, path: str) -> None:
         replay_trace(ctx, pid, p)
         return
     job = {"pid": pid, "scn": [p["scenario"]], "scales": [p["e"]], "seed": rec.get("seed", ctx.seed),
-           "cagrad": True, "only": p["agg"]}
+           "cagrad": True, "only": p["agg"], "hist_all": True}
+    if p.get("clause") == "near-max":
+        job |= {"clause": "near-max"}
     if "history_rps" in p:       # C10, one aggregator object: the permutations it was called on before the recorded one
         job |= {"history_rps": p["history_rps"], "wide": p["wide"], "clause": "one-object"}
     margin: dict = {}
